@@ -79,19 +79,19 @@ PROPS = {
             H("H_C12_localMin", "all 12 full-range integer kinds x both directions, threshold k any value of the kind (64-bit symbolic), recording = pruned recording of the real generator on any 2/3 symbolic words, with the shrinker's shape invariant (an overflow draw keeps its all-ones data word); hypothesis: no block can be lowered by one and still fail", reach=["local-minimum", "overflow", "plain"], quick=Q, thorough=T),
             H("H_C12_monotone", "all 12 kinds, any recording, bias word / data word lowered to any smaller value (64-bit symbolic)", reach=["compared"], quick=Q, thorough=T),
             H("H_C12_shape", "all 12 kinds on the real PRNG-backed recording stream with arbitrary PRNG output: overflow draws record all-ones; for every kind the solver synthesises a non-overflow bias word that keeps the extreme value (escape witness)", reach=["prng-overflow", "prng-plain"], must_reach=["escape-" + k for k in ["Int8", "Int16", "Int32", "Int64", "Int", "Uint8", "Uint16", "Uint32", "Uint64", "Uint", "Byte", "Uintptr"]], quick=Q, thorough=T, nodiff=True, search=["seed"]),
-            H("H_C12_minimizeExact", "real minimize(u, cond): all u < 2^6 (quick) / 2^9 (thorough), every threshold condition x>=theta, and the never-true condition", reach=["threshold", "nothing-accepted"], quick=Q, thorough=T),
-            H("H_C05_accept", "completeness of accept (see C05 for the bounds): a strictly smaller candidate that fails at the same site is always taken, whatever its message", reach=["accepted", "rejected"], sanity_reach=["accepted"], quick=Q, thorough=T),
+            H("H_C12_minimizeExact", "real minimize(u, cond): all u < 2^6 (quick) / 2^8 (thorough), every threshold condition x>=theta, and the never-true condition", reach=["threshold", "nothing-accepted"], quick=Q, thorough=T),
+            H("H_C05_accept", "completeness of accept (see C05 for the bounds): a strictly smaller candidate that fails at the same site is always taken, whatever its message", reach=["accepted", "rejected"], sanity_reach=["accepted"], quick=Q, thorough=TD),
             H("H_C12_binSearchInduct", "the binary search of the real minimizer at full 64-bit width by one inductive step (loop cut-point): any best, any threshold, any loop state inside the invariant i <= threshold <= j == best; variant j-i; exit => best == threshold", reach=["iterated", "returned", "loop-back-edge"], quick=Q, thorough=T, search=["best", "theta"], search_any=True),
             H("H_C12_binSearchStep", "minimizer.accept and the first probe of binSearch for all 64-bit best/u and both condition outcomes", reach=["accepted", "rejected", "probe"], quick=Q, thorough=T),
             H("H_C12_offers", "real shrink() on a 3-word recording in 2 standalone groups, words from 10 representatives (0,1,5,6,7,1000,2^53-1,2^63,2^64-2,2^64-1), property reproduced by no candidate; then a second shrink() of a neighbouring test case in the same process", reach=["first-run", "second-run"], quick=Q, thorough=T),
-            H("H_C12_slice", "SliceOf(Uint8()) recorded from any 7 (quick) / 10 (thorough) symbolic words, up to 2/3 elements, k in 0..2/3", reach=["local-minimum"], quick=Q, thorough=T),
+            H("H_C12_slice", "SliceOf(Uint8()) recorded from any 7 (quick) / 9 (thorough) symbolic words, up to 2/3 elements, k in 0..2/3", reach=["local-minimum"], quick=Q, thorough=T),
             H("H_C12_string", "StringOf(RuneFrom(a..d)) recorded from any 7/10 symbolic words, up to 2/3 runes", reach=["local-minimum"], quick=Q, thorough=T),
             H("H_C12_nativeEndToEnd", "native-only end-to-end confirmation of a failed lemma (threshold properties over Int64/Uint64/Int8, 3 seeds, Fatalf and value-naming panic, collections with k up to 32), no-op under gosym", quick=Q, thorough=T, nodiff=True),
             H("H_C12_sliceSigned", "SliceOf(Int16()) recorded from any 9 symbolic words, up to 2 elements", reach=["local-minimum"], thorough_only=True, thorough=T),
-            H("H_C12_map", "MapOf(Uint8(), Bool()) recorded from any 9 symbolic words, up to 2 entries", reach=["local-minimum"], thorough_only=True, thorough=T),
+            H("H_C12_map", "MapOf(Bool(), Bool()) recorded from any 8 symbolic words, up to 2 entries", reach=["local-minimum"], thorough_only=True, thorough=T),
         ],
         "assumptions": ENGINE_ASSUME + ["genGeom summarised as a monotone step function (see C03)",
-                                        "composition of the lemmas into the statement is a paper argument (DESIGN.md section 4, C12): termination at a fixpoint by C05's strict short-lex decrease, offers by H_C12_offers/minimize*, shape invariant by H_C12_shape + H_C12_monotone + exactness of minimize on monotone conditions (machine-checked up to 9-bit blocks only), local minimum => boundary by H_C12_localMin/H_C12_slice/string/map",
+                                        "composition of the lemmas into the statement is a paper argument (DESIGN.md section 4, C12): termination at a fixpoint by C05's strict short-lex decrease, offers by H_C12_offers/minimize*, shape invariant by H_C12_shape + H_C12_monotone + exactness of minimize on monotone conditions (machine-checked end to end up to 8-bit blocks, at full width by the step lemmas), local minimum => boundary by H_C12_localMin/H_C12_slice/string/map",
                                         "collections: at most 2-3 elements (k <= 3); the statement's k <= 32 is reached only through the per-element argument",
                                         "float thresholds and bounded ranges are outside the statement"],
         "explanation": "Lemma-wise bounded symbolic model checking of the real shrinker and generator code (each lemma decided by z3 for all inputs within its bound) plus a paper composition step; not a single end-to-end model-checking run because whole-shrink unrolling is out of reach (binary search over 53/64-bit words).",
